@@ -113,9 +113,11 @@ def bit_octets(v, named):
 
 
 class Encoder(object):
-    def __init__(self, spec, numeric_enums=False):
+    def __init__(self, spec, numeric_enums=False, explicit_defaults=False):
         self.spec = spec
         self.ne = numeric_enums
+        # BER (not DER) may encode a component that equals its DEFAULT: used by C04 to build valid BER variants
+        self.explicit_defaults = explicit_defaults
 
     def encode_member(self, m, modname, v):
         layers, r = asn.member_tags(self.spec, m, modname)
@@ -144,7 +146,7 @@ class Encoder(object):
         k = b.kind
         U = asn.UNIVERSAL_TAG
         if k == 'BOOLEAN':
-            return Node('UNIVERSAL', 1, False, b'\xff' if v else b'\x00')
+            return Node('UNIVERSAL', 1, False, b'\xff' if v else b'\x00', kind='boolean')
         if k == 'INTEGER':
             return Node('UNIVERSAL', 2, False, int_octets(v))
         if k == 'ENUMERATED':
@@ -153,7 +155,7 @@ class Encoder(object):
                 v = d[v]
             return Node('UNIVERSAL', 10, False, int_octets(v))
         if k == 'REAL':
-            return Node('UNIVERSAL', 9, False, real_octets(v))
+            return Node('UNIVERSAL', 9, False, real_octets(v), kind='real')
         if k == 'NULL':
             return Node('UNIVERSAL', 5, False, b'')
         if k == 'OBJECT IDENTIFIER':
@@ -174,7 +176,7 @@ class Encoder(object):
             for m in b.all_members():
                 if m.name not in v:
                     continue
-                if m.has_default and self.default_equal(m, r.mod, v[m.name]):
+                if m.has_default and not self.explicit_defaults and self.default_equal(m, r.mod, v[m.name]):
                     continue
                 node = self.encode_member(m, r.mod, v[m.name])
                 kids.append((m, node))
@@ -198,8 +200,8 @@ class Encoder(object):
         raise ModelError(k)
 
 
-def encode_tree(spec, ty, modname, v, numeric_enums=False):
-    return Encoder(spec, numeric_enums).encode_type(ty, modname, v)
+def encode_tree(spec, ty, modname, v, numeric_enums=False, explicit_defaults=False):
+    return Encoder(spec, numeric_enums, explicit_defaults).encode_type(ty, modname, v)
 
 
 def encode(spec, ty, modname, v, numeric_enums=False):
